@@ -249,6 +249,9 @@ func uciReach(out *UCIOutcome, rr *RunResult) {
 			if pend {
 				rr.Stats["fault_writer_stalled_us"] += e.N
 			}
+		case "WRITE-ERROR":
+			rr.Stats["fault_write_error"]++
+			rr.nontrivial = true
 		case "STUBSTOP":
 			rr.Stats["stub_stopped"]++
 		case "STUBSELF":
